@@ -411,7 +411,10 @@ func (b *BinaryExpr) SQL() string {
 
 func (u *UnaryExpr) SQL() string {
 	p := exprPrec(u)
-	return string(u.Op) + strOpt(u.Op == OpNot, " ") + paren(p, u.Expr)
+	operand := paren(p, u.Expr)
+	// "- -1" must not become "--1" (a comment), "+ +1" not "++1".
+	glued := u.Op != OpNot && operand != "" && (operand[0] == '-' || operand[0] == '+')
+	return string(u.Op) + strOpt(u.Op == OpNot || glued, " ") + operand
 }
 
 func (i *InExpr) SQL() string {
